@@ -264,11 +264,18 @@ def simulate(spec):
                 if m is None:
                     t.harness = 1
                     return {"kind": "ok", "digest": "no model"}
-                shot = pb.Shot(pb.Weapon(U.Inch(2)), pb.Ammo(m, U.FPS(2600)))
+                # models built from models compound the BC scaling; a drag thousands of times the standard one makes
+                # the solver's explicit step oscillate for hours (see DESIGN section 7, notes): bounded by a step budget
+                shot = pb.Shot(pb.Weapon(U.Inch(2)), pb.Ammo(m, U.FPS(2600)), atmo=lib.SimAtmo())
+                t.step_budget = 5000
                 hit = calc.fire(shot, U.Yard(100), U.Yard(50))
                 t.harness = 1
                 return {"kind": "ok", "digest": [fhex(r.height.raw_value) for r in hit.trajectory]}
-        except (SimInterrupt, BudgetExceeded):
+        except BudgetExceeded:
+            t.harness = 1
+            t.step_budget = None
+            return {"kind": "ok", "digest": "step budget: not this property's business"}
+        except SimInterrupt:
             t.harness = 1
             raise
         except MemoryError:
@@ -352,7 +359,7 @@ def simulate(spec):
         dec = PrngDecider(rng_for(spec["seed"], "schedule"), cfg["policy"], cfg["mean_run"], max(10, nops * 1500),
                           len(spec["programs"]), cfg.get("pct_depth", 2))
     sim = Sim(spec["programs"], exec_op, dec, mode=cfg["mode"], opcode=cfg.get("opcode", False),
-              faults=spec.get("faults"), on_boundary=on_boundary)
+              faults=spec.get("faults"), on_boundary=on_boundary, event_budget=3_000_000)
     sim.run()
     results = [t.results for t in sim.tasks]
     kinds = {}
